@@ -302,3 +302,29 @@ def prefix_remainder(rep, prog, rule="PREFIX-REMAINDER"):
                           % show(R, maxd=4)[:160], f.loc())
     if n == 0:
         rep.violation(rule, "parse_time_zone: POSIX branch", "anchor missing: no Ok return built from PosixTimeZone::parse_prefix", f.loc())
+
+
+def verbatim(rep, prog, rule="VERBATIM"):
+    """%Z prints the abbreviation the zone reports, not a case-mapped copy of it"""
+    rep.rule(rule, "the text of strftime's %Z is data from the time zone (tzdb has mixed-case abbreviations: `ChST`; POSIX strings may use "
+                   "any case), so Formatter::fmt_tzabbrev hands Extension::write_str a default case that is Case::AsIs unless a flag "
+                   "asks for a mapping: the `default` argument is not the constant Case::Upper (or Lower) - that maps every "
+                   "abbreviation although C's %Z, and TimeZoneOffsetInfo::abbreviation, give it verbatim")
+    f = prog.fns.get("jiff::fmt::strtime::format::Formatter::<'f, 't, 'w, W>::fmt_tzabbrev")
+    if f is None:
+        rep.anchor_missing("fmt::strtime::format::Formatter::fmt_tzabbrev")
+        return
+    T = Terms(f)
+    calls = [(bi, t) for bi, t in mir.iter_calls(f) if re.search(r"Extension>?::write_str", t.get("path", ""))]
+    if not calls:
+        rep.violation(rule, "%Z", "anchor missing: fmt_tzabbrev no longer calls Extension::write_str", f.loc())
+        return
+    for bi, t in calls:
+        d = T.at_call(bi, t, 1)
+        variants = sorted({a[2] for a in alts(d) if isinstance(a, tuple) and a and a[0] == "agg"})
+        loc = "%s:%s" % (t["span"]["file"], t["span"]["line"])
+        if "AsIs" in variants:
+            rep.ok(rule, "%Z", how="default case is one of %s (AsIs without a flag)" % variants, loc=loc)
+        else:
+            rep.violation(rule, "%Z", "the default case handed to write_str is %s on every path: the abbreviation is case-mapped even "
+                          "without a flag (Pacific/Guam prints CHST for ChST)" % (variants or show(d, maxd=3)), loc)
